@@ -65,7 +65,7 @@ fn main() {
         i += 1;
     }
     if cmd == "c04-one" || cmd == "c03-one" {
-        std::process::exit(if cmd == "c04-one" { tmon::c04::one(&args[2]) } else { 2 });
+        std::process::exit(if cmd == "c04-one" { tmon::c04::one(&args[2]) } else { tmon::c03::one(&args[2]) });
     }
     let prop: &'static str = match cmd.split('-').next().unwrap_or("") {
         "c01" => "C01",
